@@ -54,6 +54,40 @@ def _bitops(prog):
     return out
 
 
+def _branch_table(body, source, out_local, stop_block):
+    """truth table (f(0,0), f(0,1), f(1,0), f(1,1)) of the value assigned to out_local: a branch on one operand's bit, and on
+    each side one assignment of a constant or of the other operand's bit"""
+    sw = None
+    for b, blk in enumerate(body.blocks):
+        t = blk["t"]
+        if t["k"] == "switch" and not blk.get("c"):
+            s_ = source(t["o"])
+            if isinstance(s_, tuple):
+                sw = (b, t, s_[1])
+    if sw is None:
+        return None
+    assigns = [(b, source(s["r"]["o"])) for b, blk in enumerate(body.blocks) for s in blk["s"]
+               if s["k"] == "assign" and s["p"] == [out_local, []] and s["r"]["k"] == "use"]
+    b, t, first = sw
+    zero = [tg for val, tg in t["ts"] if val == 0]
+    if not zero:
+        return None
+    stop = {stop_block} if stop_block is not None else set()
+    rz = body.reachable(zero[0], avoid={t["else"]} | stop) | {zero[0]}
+    rn = body.reachable(t["else"], avoid={zero[0]} | stop) | {t["else"]}
+    vz = [v for bb, v in assigns if bb in rz and bb not in rn]
+    vn = [v for bb, v in assigns if bb in rn and bb not in rz]
+    if len(vz) != 1 or len(vn) != 1 or vz[0] is None or vn[0] is None:
+        return None
+    rows = []
+    for a in (0, 1):
+        for b_ in (0, 1):
+            bits = (a, b_)
+            branch = vn[0] if bits[first] else vz[0]
+            rows.append(bits[branch[1]] if isinstance(branch, tuple) else branch)
+    return tuple(rows)
+
+
 def r1_elementwise(ctx, rule="C19.R1"):
     prog = ctx.prog
     ops = _bitops(prog)
@@ -72,7 +106,55 @@ def r1_elementwise(ctx, rule="C19.R1"):
                 idx.append((b, t, recv, str(pv.of_operand(t["args"][1]))))
         params = sorted({r[1] for _b, _t, r, _i in idx if r[0] == "param"})
         if len(idx) != 2 or params != [0, 1]:
-            ctx.unknown(rule, key, f.loc, "the loop of Bit%s does not read one bit of each operand through Index::index" % name.capitalize())
+            # the iterator spelling: a.v.iter().zip(b.v.iter()).map(|(x, y)| ..)
+            zips = [(b, t) for b, t in body.calls() if (mir.callee_path(t) or "").endswith("Iterator::zip") and len(t["args"]) == 2]
+            maps = [(b, t) for b, t in body.calls() if (mir.callee_path(t) or "").endswith("Iterator::map") and len(t["args"]) == 2]
+            clos = None
+            if len(zips) == 1 and len(maps) == 1:
+                o = mir.strip_refs(pv.of_operand(maps[0][1]["args"][1]))
+                if o[0] == "agg" and o[1] == "closure":
+                    clos = prog.fns.get(o[2])
+            if clos is None:
+                ctx.unknown(rule, key, f.loc, "Bit%s reads its operands neither through Index::index at an index nor through a zip of "
+                            "the two bit vectors" % name.capitalize())
+                continue
+            za = [mir.show_origin(pv.of_operand(a)) for a in zips[0][1]["args"]]
+            sides = ["arg0" in za[0] and "arg1" not in za[0], "arg1" in za[1] and "arg0" not in za[1]]
+            sides_sw = ["arg1" in za[0] and "arg0" not in za[0], "arg0" in za[1] and "arg1" not in za[1]]
+            straight = not any(w in x for x in za for w in ("rev(", "skip(", "step_by(", "take(", "chain("))
+            ctx.decide((all(sides) or all(sides_sw)) and straight, rule, key + ":same-index", f.loc,
+                       "zip of the two operands' bits, both from the front",
+                       "Bit%s zips %s with %s: the two operands are not walked together from the front, the operation is not "
+                       "element-wise" % (name.capitalize(), za[0][:50], za[1][:50]))
+            cb = clos.body
+            # the closure gets a pair of references: which local is the bit of which side
+            side_of = {}
+            for blk in cb.blocks:
+                for st in blk["s"]:
+                    if st["k"] == "assign" and not st["p"][1] and st["r"]["k"] == "use":
+                        pl_ = mir.op_place(st["r"]["o"])
+                        if pl_ is not None and pl_[0] == 2 and len(pl_[1]) == 1 and isinstance(pl_[1][0], dict) and "f" in pl_[1][0]:
+                            side_of[st["p"][0]] = pl_[1][0]["f"]
+
+            def csrc(op):
+                k_ = op.get("k") if isinstance(op, dict) else None
+                if k_ and "int" in k_:
+                    return int(bool(k_["int"]))
+                p_ = mir.op_place(op)
+                if p_ is not None and p_[1] == ["*"] and p_[0] in side_of:
+                    return ("bit", side_of[p_[0]])
+                if p_ is not None and not p_[1]:
+                    d_ = cb.single_def(p_[0])
+                    if d_ and d_[1] != "T" and d_[2]["r"]["k"] == "use":
+                        return csrc(d_[2]["r"]["o"])
+                return None
+            table = _branch_table(cb, csrc, 0, None)
+            if table is None:
+                ctx.unknown(rule, key, f.loc, "the closure of Bit%s is not a branch on one bit with a constant / the other bit on each side"
+                            % name.capitalize())
+            else:
+                ctx.decide(table == want[name], rule, key + ":truth-table", f.loc, "truth table %s" % (table,),
+                           "Bit%s maps the operand bits (0,0) (0,1) (1,0) (1,1) to %s; %s is %s" % (name.capitalize(), table, name, want[name]))
             continue
         ctx.decide(idx[0][3] == idx[1][3], rule, key + ":same-index", f.loc, "both operands are read at %s" % idx[0][3][:60],
                    "Bit%s combines bit %s of one operand with bit %s of the other: the operation is not element-wise"
